@@ -26,11 +26,15 @@ A_ag2  == <<"agenda-group", "\"no-loop batch\"", "ag", "no-loop batch">>
 A_ag3  == <<"agenda-group", "\"lock-on-active zone\"", "ag", "lock-on-active zone">>
 A_grp2 == <<"activation-group", "\"pricing rules\"", "grp", "pricing rules">>
 A_desc == <<"\"checks the no-loop rule of salience 7\"", "<SKIP>", "desc", "">>
+(* an apostrophe inside a double-quoted header string, written before the salience *)
+A_ag4  == <<"agenda-group", "\"kid's menu\"", "ag", "kid's menu">>
+A_grp3 == <<"activation-group", "\"five o'clock\"", "grp", "five o'clock">>
+A_desc2== <<"\"the customer's own rule\"", "<SKIP>", "desc", "">>
 AttrLists == << <<>>, <<A_sal>>, <<A_nl>>, <<A_sal, A_nl>>, <<A_nl, A_sal>>, <<A_ag, A_sal>>, <<A_grp, A_lock, A_sal>>,
                 <<A_eff, A_exp, A_sal>>, <<A_sal, A_nl, A_lock, A_ag, A_grp, A_eff, A_exp>>,
                 <<A_exp, A_eff, A_grp, A_ag, A_lock, A_nl, A_sal>>, <<A_lock>>, <<A_ag, A_grp>>,
                 <<A_desc, A_sal>>, <<A_ag2, A_sal>>, <<A_nl, A_grp2, A_sal>>, <<A_ag3>>, <<A_lock, A_grp2, A_ag2, A_sal>>, <<A_desc, A_ag2, A_grp2>>,
-                <<A_desc>> >>
+                <<A_desc>>, <<A_ag4, A_sal>>, <<A_desc2, A_sal, A_nl>>, <<A_nl, A_grp3, A_sal>>, <<A_sal, A_ag4, A_grp3>> >>
 
 (* values: <<token, AST kind, AST text>> *)
 V_int  == <<"5", "int", "5">>
